@@ -72,13 +72,29 @@ func typedFilter(r *rand.Rand, values val.Item, tag string) *refmodel.Cond {
 			return &refmodel.Cond{Op: "type", Args: []refmodel.Operand{path(mon.Pick(r, []string{"g", "v"})), newVal(val.Str(mon.Pick(r, []string{"S", "N"})))}}
 		}
 	}
-	switch r.Intn(5) {
+	not := func(c *refmodel.Cond) *refmodel.Cond { return &refmodel.Cond{Op: "not", Kids: []*refmodel.Cond{c}} }
+	bin := func(op string, a, b *refmodel.Cond) *refmodel.Cond { return &refmodel.Cond{Op: op, Kids: []*refmodel.Cond{a, b}} }
+	switch r.Intn(9) {
 	case 0:
-		return &refmodel.Cond{Op: "and", Kids: []*refmodel.Cond{leaf(), leaf()}}
+		return bin("and", leaf(), leaf())
 	case 1:
-		return &refmodel.Cond{Op: "or", Kids: []*refmodel.Cond{leaf(), leaf()}}
+		return bin("or", leaf(), leaf())
 	case 2:
-		return &refmodel.Cond{Op: "not", Kids: []*refmodel.Cond{leaf()}}
+		return not(leaf())
+	case 3:
+		// the three logical operators mixed WITHOUT parentheses (the renderer writes only the parentheses the tree
+		// needs): what a filter selects then depends on NOT binding tighter than AND and AND tighter than OR
+		return mon.Pick(r, []func() *refmodel.Cond{
+			func() *refmodel.Cond { return bin("and", not(leaf()), leaf()) },                 // NOT x AND y
+			func() *refmodel.Cond { return bin("and", bin("and", leaf(), not(leaf())), leaf()) }, // x AND NOT y AND z
+			func() *refmodel.Cond { return bin("or", not(leaf()), leaf()) },                  // NOT x OR y
+			func() *refmodel.Cond { return bin("or", leaf(), bin("and", leaf(), leaf())) },   // x OR y AND z
+			func() *refmodel.Cond { return bin("or", bin("and", leaf(), leaf()), leaf()) },   // x AND y OR z
+			func() *refmodel.Cond { return bin("and", bin("or", leaf(), leaf()), leaf()) },   // (x OR y) AND z
+			func() *refmodel.Cond { return not(bin("and", leaf(), leaf())) },                 // NOT (x AND y)
+			func() *refmodel.Cond { return bin("or", bin("and", not(leaf()), leaf()), not(leaf())) },
+			func() *refmodel.Cond { return not(not(leaf())) },
+		})()
 	}
 	return leaf()
 }
